@@ -135,7 +135,11 @@ func (c *channelManager) loadChannels(channels map[string]channel) error {
 }
 
 func (c *channelManager) updateValues(_ context.Context, values map[string] /*to*/ map[string] /*from*/ any) error {
+	vkeys, vi := verifhook.SortedKeys(values), 0
 	for target, fromMap := range values {
+		if verifhook.On { // simulator: same body, deterministic (sorted) iteration order
+			target, fromMap, vi = vkeys[vi], values[vkeys[vi]], vi+1
+		}
 		toChannel, ok := c.channels[target]
 		if !ok {
 			return fmt.Errorf("target channel doesn't existed: %s", target)
@@ -145,7 +149,11 @@ func (c *channelManager) updateValues(_ context.Context, values map[string] /*to
 			dps = map[string]struct{}{}
 		}
 		nFromMap := make(map[string]any, len(fromMap))
+		fkeys, fi := verifhook.SortedKeys(fromMap), 0
 		for from, value := range fromMap {
+			if verifhook.On {
+				from, value, fi = fkeys[fi], fromMap[fkeys[fi]], fi+1
+			}
 			var err error
 
 			if _, ok = dps[from]; ok {
@@ -192,7 +200,11 @@ func (c *channelManager) updateDependencies(_ context.Context, dependenciesMap m
 
 func (c *channelManager) getFromReadyChannels(_ context.Context) (map[string]any, error) {
 	result := make(map[string]any)
+	ckeys, ci := verifhook.SortedKeys(c.channels), 0
 	for target, ch := range c.channels {
+		if verifhook.On {
+			target, ch, ci = ckeys[ci], c.channels[ckeys[ci]], ci+1
+		}
 		v, ready, err := ch.get(c.isStream)
 		if err != nil {
 			return nil, fmt.Errorf("get value from ready channel[%s] fail: %w", target, err)
